@@ -246,8 +246,17 @@ def run(ctx, idx):
         con = "%s::parse-call" % fi.key
         lexarg = kws.get("lexer")
         ok_lex = lexarg is not None and not (isinstance(lexarg, ast.Constant) and lexarg.value is None)
+        why_lex = "lexer= passed explicitly"
+        if not ok_lex:
+            # PLY reads through its module-level default `ply.lex.lexer` when none is given: acceptable when this parser's own
+            # lexer is made that default on every path to the call (trusted base: yacc.parse uses lex.lexer for lexer=None)
+            sets = cfg.find("store", lambda n: n.meta.get("attr") == "lexer" and isinstance(n.ast, ast.Attribute) and (idx.qualname(fi.module, n.ast, fi) or "") in ("ply.lex.lexer",) and n.meta.get("value") is not None and K.src(n.meta["value"]) == "%s.lexer" % sn)
+            if sets and cfg.must_pass_through(cfg.entry, c, set(sets)):
+                ok_lex = True
+                why_lex = "this parser's lexer is made PLY's default lexer (ply.lex.lexer = self.lexer) on every path to the call"
+                lexarg = sets[0].meta["value"]
         ok_trk = isinstance(kws.get("tracking"), ast.Constant) and kws["tracking"].value is True
-        ctx.ob("C11.a", con + "::lexer-explicit", K.rel(fi), c.line, ok_lex, "lexer= passed explicitly" if ok_lex else "parse() is called without lexer=: PLY falls back to the module-global last-created lexer, whose position and line counter belong to another parse")
+        ctx.ob("C11.a", con + "::lexer-explicit", K.rel(fi), c.line, ok_lex, why_lex if ok_lex else "parse() is called without lexer=: PLY falls back to the module-global last-created lexer, whose position and line counter belong to another parse")
         ctx.ob("C11.a", con + "::tracking", K.rel(fi), c.line, ok_trk, "tracking=True" if ok_trk else "parse() is called without tracking=True: p.lineno() of nonterminals is 0")
         resets = cfg.find("store", lambda n: n.meta.get("attr") == "lineno" and isinstance(n.meta.get("value"), ast.Constant) and n.meta["value"].value == 1)
         fresh = False
